@@ -8,8 +8,9 @@ MANIFEST = dict(
          "every raw script, both source modes - a Next-position callback whose first failing invocation panics delivers (what the un-faulted operator delivers before) ++ [Error(observer(p))], "
          "Grammar, cause in the Unwrap chain, nothing escaped, nothing unhandled, source torn down exactly once (next_fault); any plan over that callback is runOp of the injected machine (agree); "
          "for EVERY plan without a teardown fault (all callback positions, source subscribe function, final observer; any number of faults) no panic reaches the caller of Subscribe/Next/Unsubscribe (never_escapes) "
-         "and every injected panic is in the chain of an error given to the observer, the drop hook or the unhandled hook (every_failure_reaches_someone); Unsubscribe runs every finalizer and re-raises exactly the joined panics. "
-         "F: every go statement of the regenerated catalogue that calls user code is recovered except the listed one (decide). K: fault injection at every callback position x invocation index <= 3 x {panic(error), panic(value), error return}, "
+         "and every injected panic is in the chain of an error given to the observer, the drop hook or the unhandled hook (every_failure_reaches_someone); for EVERY plan in which the final observer's onNext does not panic the trace obeys the grammar (grammar_partial); "
+         "a panicking subscribe function = its delivered prefix, then Error(observable(p)), then Unsubscribe (subscribe_fn_panic); an error return is forwarded unwrapped (error_return); Unsubscribe runs every finalizer and re-raises exactly the joined panics. "
+         "F: every go statement of the regenerated catalogue that calls user code is recovered except the listed one; subscription.Add unlocks by defer (decide over regenerated tables). K: fault injection at every callback position x invocation index <= 3 x {panic(error), panic(value), error return}, "
          "singly and in pairs, for 23 operators x variants x scripts x {sync, hot}, all result fields equal on both sides, plus child-process runs for library goroutines. "
          "Partial: six deviation classes of the pinned tree are witness theorems + known findings (final observer stays open after its onNext panics; Error/Complete-position callbacks; Future's bare goroutine; "
          "teardown panics re-raised into the producer / dropped; subscriberImpl.NextWithContext without deferred unlock). Not covered: Share/subject scenarios (iv, subject half of v), multi-source operators.",
